@@ -122,6 +122,7 @@ func TestC12Close(t *testing.T) {
 	rec := evid.New(t, "C12", "generated node configurations (custom, TCP/UDP server with peers, TCP/UDP client against a live or refusing address, serial through the hook) with traffic, gated (blocked) transports, a consumer that is absent, running or paused, concurrent Write* callers and a generated close point (immediately, after a delay, once a writer is parked in the transport); Close must return within a bound far above normal (on a miss two goroutine dumps prove the deadlock), afterwards no goroutine started by the library is alive, every listening port can be bound again, accepted connections are closed, each custom transport was closed exactly once, Events() is closed, and racing/following Write* calls return; non-trivial = close while a goroutine is known to be blocked (parked writer, paused/absent consumer with pending events, client in back-off); distinct by hash of the scenario")
 	rec.Require("blocked-writer", "no-consumer", "paused-consumer", "client-backoff", "open-completes-during-close", "reader-failed-while-writer-blocked", "racing-writers", "tcps", "udps", "tcpc", "udpc", "serial", "custom", "bcast", "stream-request-event-undelivered", "custom-transport-read-failed-before-close")
 	evid.Check(t, rec, evid.N(250, 700), func(t *rapid.T) {
+		drawNodeInit(t)
 		w := &c12World{}
 		ne := rapid.IntRange(1, 4).Draw(t, "neps")
 		for i := 0; i < ne; i++ {
@@ -291,7 +292,7 @@ func runC12(w *c12World) ([]string, error) {
 	n := &gomavlib.Node{Endpoints: endpoints, Dialect: ardupilotmega.Dialect, OutVersion: gomavlib.V2, OutSystemID: 7,
 		HeartbeatDisable: !w.heartbeat, HeartbeatPeriod: w.hbPeriod, WriteTimeout: 300 * time.Millisecond,
 		StreamRequestEnable: true}
-	if err := n.Initialize(); err != nil {
+	if err := initNode(&n); err != nil {
 		return nil, fmt.Errorf("BROKEN: node init: %v", err)
 	}
 	var rec *sim.Recorder
@@ -563,6 +564,7 @@ func TestC12InitFailure(t *testing.T) {
 	rec := evid.New(t, "C12", "endpoint lists whose j-th element cannot be initialized (TCP/UDP port already bound, malformed address, serial device that does not open) after 0..3 good endpoints: Initialize must fail, no library goroutine may remain, every port of the earlier endpoints must be bindable again, earlier custom transports closed at most once; non-trivial = at least one good endpoint before the failing one; distinct by hash of the endpoint list")
 	rec.Require("fail-after-good", "busy-tcp", "busy-udp", "bad-address", "serial-missing", "odd-broadcast-port")
 	evid.Check(t, rec, evid.N(300, 1000), func(t *rapid.T) {
+		drawNodeInit(t)
 		ngood := rapid.IntRange(0, 3).Draw(t, "ngood")
 		var endpoints []gomavlib.EndpointConf
 		var ports []int
@@ -627,7 +629,7 @@ func TestC12InitFailure(t *testing.T) {
 			endpoints = append(endpoints, gomavlib.EndpointUDPBroadcast{BroadcastAddress: "127.255.255.255:" + bp, LocalAddress: sim.Addr(oddPort)})
 		}
 		n := &gomavlib.Node{Endpoints: endpoints, Dialect: common.Dialect, OutVersion: gomavlib.V2, OutSystemID: 7}
-		err := n.Initialize()
+		err := initNode(&n)
 		if release != nil {
 			release()
 		}
